@@ -21,8 +21,7 @@ import (
 )
 
 const (
-	gasCap        = uint64(120000000) // < 24576*200*30: a CREATE returning 24576 bytes can never pay for code storage
-	blockHeight   = uint64(1000)
+	devHeight     = uint64(1000)
 	nSlots        = 8
 	markerMagic0  = 0xC1
 	markerMagic1  = 0x2A
@@ -31,8 +30,25 @@ const (
 	hugeForkBlock = uint64(1) << 62
 )
 
+// fork schedules of the code itself: common.Init selects mainNetChainConfig / robinChainConfig / the dev one
+var schedules = map[string]common.ChainConfig{}
+
+// session state derived from the fork configuration in force
+var (
+	blockHeight = devHeight
+	// top-level gas: below the code deposit of 24576 bytes (200 gas per byte, x30 under Proposal026), so that
+	// a CREATE returning that much can never pay for code storage
+	gasCap  = uint64(120000000)
+	costDiv = uint64(1) // the budget constants assume Proposal026 magnification; before it they are divided by 6 (value transfer and new-account gas are not magnified)
+)
+
 func boot() {
+	for _, env := range []string{"mainnet", "robin"} {
+		common.Init(0, "verif.ini", env)
+		schedules[env] = common.LocalChainConfig
+	}
 	hxnode.BootServices("dev")
+	schedules["dev"] = common.LocalChainConfig
 	core.VerifC01InitLoggers()
 	core.VerifC06Init() // refund manager singleton (UNSTAKE / UNSTAKEALL go through service.RefundManagerImpl)
 	common.SetBlockHeight(blockHeight)
@@ -231,7 +247,15 @@ func (t *traceDB) GetCodeHash(a common.Address) common.Hash {
 }
 func (t *traceDB) GetCode(a common.Address) []byte    { t.see(a); return t.AccountDB.GetCode(a) }
 func (t *traceDB) SetCode(a common.Address, c []byte) { t.see(a); t.AccountDB.SetCode(a, c) }
-func (t *traceDB) GetCodeSize(a common.Address) int   { t.see(a); return t.AccountDB.GetCodeSize(a) }
+func (t *traceDB) GetCodeSize(a common.Address) int {
+	if a[0] == markerMagic0 && a[1] == markerMagic1 {
+		id := int(a[15])<<24 | int(a[16])<<16 | int(a[17])<<8 | int(a[18])
+		t.h.onMarker(int(a[2]), id, a[19] != 0)
+		return 0
+	}
+	t.see(a)
+	return t.AccountDB.GetCodeSize(a)
+}
 func (t *traceDB) GetState(a common.Address, k common.Hash) common.Hash {
 	t.see(a)
 	return t.AccountDB.GetState(a, k)
@@ -263,11 +287,6 @@ func (t *traceDB) Snapshot() int {
 }
 
 func (t *traceDB) GetTransientState(a common.Address, k common.Hash) common.Hash {
-	if k[0] == markerMagic0 && k[1] == markerMagic1 {
-		id := int(k[27])<<24 | int(k[28])<<16 | int(k[29])<<8 | int(k[30])
-		t.h.onMarker(int(k[2]), id, k[31] != 0)
-		return common.Hash{}
-	}
 	t.see(a)
 	return t.AccountDB.GetTransientState(a, k)
 }
@@ -288,10 +307,13 @@ type harness struct {
 	// searcher probe state
 	probe *probeState
 	cfg   blockCfg
+	flags forkFlags
 }
 
 type blockCfg struct {
 	p013, p007, cbn bool
+	sched           string // "" / "dev", "mainnet", "robin"
+	height          uint64 // block height under a mainnet / robin schedule
 }
 
 func newHarness() *harness {
@@ -311,19 +333,52 @@ func setFork(p *uint64, on bool) {
 	}
 }
 
-func (h *harness) applyCfg(c blockCfg) {
-	h.cfg = c
-	setFork(&common.LocalChainConfig.Proposal013Block, c.p013)
-	setFork(&common.LocalChainConfig.Proposal007Block, c.p007)
-	// createBumpsNonce = !P006 || P007 ; with p007 on it is true; with p007 off: P006 off -> true, P006 on -> false
-	if c.p007 {
-		setFork(&common.LocalChainConfig.Proposal006Block, true)
+// forkFlags: what the fork configuration in force says about the flags the C12 path reads
+type forkFlags struct{ p002, p012, p013, p007, cbn, p014, p015, p022, p026 bool }
+
+func readFlags() forkFlags {
+	lc := common.LocalChainConfig
+	return forkFlags{p002: common.IsProposal002(), p012: common.IsProposal012(), p013: common.IsProposal013(), p007: common.IsProposal007(),
+		cbn: !common.IsProposal006() || common.IsProposal007(), p014: blockHeight >= lc.Proposal014Block,
+		p015: common.IsProposal015(), p022: blockHeight >= lc.Proposal022Block, p026: blockHeight >= lc.Proposal026Block}
+}
+
+// setSchedule puts a fork schedule and a height in force (the jump table forks read evm.BlockNumber against
+// the same LocalChainConfig, the IsProposalNNN() flags read the global height)
+func setSchedule(c blockCfg) forkFlags {
+	sched := c.sched
+	if sched == "" {
+		sched = "dev"
+	}
+	common.LocalChainConfig = schedules[sched]
+	blockHeight = devHeight
+	if sched != "dev" {
+		blockHeight = c.height
 	} else {
-		setFork(&common.LocalChainConfig.Proposal006Block, !c.cbn)
+		setFork(&common.LocalChainConfig.Proposal013Block, c.p013)
+		setFork(&common.LocalChainConfig.Proposal007Block, c.p007)
+		// createBumpsNonce = !P006 || P007 ; with p007 on it is true; with p007 off: P006 off -> true, P006 on -> false
+		if c.p007 {
+			setFork(&common.LocalChainConfig.Proposal006Block, true)
+		} else {
+			setFork(&common.LocalChainConfig.Proposal006Block, !c.cbn)
+		}
 	}
 	common.SetBlockHeight(blockHeight)
-	if common.IsProposal013() != c.p013 || common.IsProposal007() != c.p007 || (!common.IsProposal006() || common.IsProposal007()) != c.cbn {
-		panic("fork configuration not applied")
+	f := readFlags()
+	gasCap, costDiv = 120000000, 1
+	if !f.p026 {
+		gasCap, costDiv = 4500000, 6 // 24576*200 = 4.9M is the code deposit that must stay unaffordable
+	}
+	return f
+}
+
+func (h *harness) applyCfg(c blockCfg) {
+	h.cfg = c
+	f := setSchedule(c)
+	h.flags = f
+	if f.p013 != c.p013 || f.p007 != c.p007 || f.cbn != c.cbn {
+		panic(fmt.Sprintf("fork configuration %v does not give the flags of the reset line: %+v", c, f))
 	}
 }
 
